@@ -205,7 +205,6 @@ package codegen
 //@ func (*Writer).typeSize
 //@   mode bv
 //@   tags C07 C04
-//@   requires [module] w != nil && w.module != nil
 //@   ensures [scalar] int(handle) < len(w.module.Types) && is(mty(w, handle), ir.ScalarType) ==> result == uint32(mty(w, handle).(ir.ScalarType).Width)
 //@   ensures [vector] int(handle) < len(w.module.Types) && is(mty(w, handle), ir.VectorType) ==> result == uint32(mty(w, handle).(ir.VectorType).Size) * uint32(mty(w, handle).(ir.VectorType).Scalar.Width)
 //@   ensures [mat-rows2] int(handle) < len(w.module.Types) && is(mty(w, handle), ir.MatrixType) && mty(w, handle).(ir.MatrixType).Rows == ir.Vec2 && mty(w, handle).(ir.MatrixType).Scalar.Width != 0 ==> result == uint32(mty(w, handle).(ir.MatrixType).Columns) * 2 * uint32(mty(w, handle).(ir.MatrixType).Scalar.Width)
@@ -268,3 +267,20 @@ package codegen
 //@   tags C04
 //@   at return assert [array-length] is(childExpr.Kind, ir.ExprArrayLength) ==> result
 //@   at return assert [scalar-select] is(childExpr.Kind, ir.ExprSelect) && !is(condType, ir.VectorType) ==> result
+
+// ---- padding bytes of MSL structs and the runtime-array length formula (C07, C15) -------------------
+//
+// A gap before a member (and after the last one) is filled with exactly
+// `offset - end of the previous member` bytes; the number of elements of a
+// runtime-sized array is (buffer size - offset of the array - element size) /
+// stride, plus one, with the operands in that order.
+//
+//@ func (*Writer).writeStructDefinition
+//@   mode bv
+//@   tags C07 C04
+//@   at WriteLine#2 assert [member-padding] arg1 == "char _pad%d[%d];" ==> vararg1 == member.Offset - lastOffset && member.Offset > lastOffset
+//
+//@ func (*Writer).writeRuntimeArrayMaxIndex
+//@   mode bv
+//@   tags C15
+//@   at (*Writer).write assert [length-formula] arg1 == "(_buffer_sizes.size%d - %d - %d) / %d" ==> vararg0 == globalIdx && vararg1 == offset && vararg2 == elemSize && vararg3 == stride && stride != 0
